@@ -444,3 +444,69 @@ Definition oracle_bad (cs : list (N * scase)) : list N :=
 Definition known_hits (cs : list (N * scase)) : list N :=
   map fst (filter (fun c => match snd c with (is_rocks, ops, outs) =>
                      negb (spec_run [] ops outs []) && (is_rocks && name_collision ops) end) cs).
+
+(* ------------------------------------------------------------------------------------------ *)
+(* A process killed between two writes (RocksDB).  An operation on an item writes, in order: for a name that has
+   no identifier yet the counter (merge +1) and then the name's entry; then the operation's own entry.  [Kill k o]:
+   [o] is carried out until [k] writes have been made, no further write reaches the database, and the database is
+   closed and opened again (the identifier counter in memory is re-read from the stored one). *)
+Inductive hop := HOp (o : sop) | HKill (k : N) (o : sop).
+
+Definition with_lane (r : rocks) (c : N) (ids : list (bytes * N)) : rocks :=
+  {| lane_counter := c; lane_ids := ids; value_ks := value_ks r; map_ks := map_ks r;
+     mem_count := mem_count r; open_agents := open_agents r |}.
+
+Definition rocks_partial (r : rocks) (k : N) (o : sop) : rocks :=
+  match agent_of o with
+  | Some (a, n) =>
+      if mem_b a (open_agents r) then
+        let name := lane_name a n in
+        match bget name (lane_ids r) with
+        | Some id => if 1 <=? k then fst (rocks_call r id o) else r
+        | None =>
+            let id := mem_count r + 1 in
+            let r1 := if 1 <=? k then with_lane r (lane_counter r + 1) (lane_ids r) else r in
+            let r2 := if 2 <=? k then with_lane r1 (lane_counter r1) (bput name id (lane_ids r1)) else r1 in
+            if 3 <=? k then fst (rocks_call r2 id o) else r2
+        end
+      else r
+  | None => r
+  end.
+
+Definition rocks_kill (r : rocks) (k : N) (o : sop) : rocks := fst (rocks_step (rocks_partial r k o) Reopen).
+
+Definition rocks_hstep (r : rocks) (h : hop) : rocks * out :=
+  match h with
+  | HOp o => rocks_step r o
+  | HKill k o => (rocks_kill r k o, (None, RSkipped))
+  end.
+
+Fixpoint hrun (r : rocks) (hs : list hop) : list out :=
+  match hs with
+  | [] => []
+  | h :: rest => let (r', o) := rocks_hstep r h in o :: hrun r' rest
+  end.
+
+Definition kcase := (list hop * list out)%type.
+
+Definition kill_corr_bad (cs : list (N * kcase)) : list N :=
+  map fst (filter (fun c => negb (outs_eqb (hrun rocks0 (fst (snd c))) (snd (snd c)))) cs).
+
+(* the oracle on the implementation's answers alone: the identifiers it handed out over the whole history, kills
+   included, are one per name and never shared by two names *)
+Fixpoint named_ids (hs : list hop) (outs : list out) : list (bytes * N) :=
+  match hs, outs with
+  | HOp o :: hs', (Some id, _) :: outs' =>
+      match agent_of o with
+      | Some (a, n) => (lane_name a n, id) :: named_ids hs' outs'
+      | None => named_ids hs' outs'
+      end
+  | _ :: hs', _ :: outs' => named_ids hs' outs'
+  | _, _ => []
+  end.
+
+Definition ids_consistent (l : list (bytes * N)) : bool :=
+  forallb (fun p => forallb (fun q => Bool.eqb (bytes_eqb (fst p) (fst q)) (snd p =? snd q)) l) l.
+
+Definition kill_oracle_bad (cs : list (N * kcase)) : list N :=
+  map fst (filter (fun c => negb (ids_consistent (named_ids (fst (snd c)) (snd (snd c))))) cs).
